@@ -105,7 +105,16 @@ def exec_RDC(t):
             # the bounds as fixed-point objects holding the same values (in a format of their own)
             amin = None if amin is None else Fxp(int(lo), True, n + 2, f, raw=True)
             amax = None if amax is None else Fxp(int(hi), True, n + 3, f, raw=True)
-        z = np.clip(x, amin, amax) if route == 'numpy' else x.clip(amin, amax)
+        v_ = (len(codes) + n + sum(c % 5 for c in codes)) % 4
+        if v_ == 1 and not isinstance(amin, Fxp) and not isinstance(amax, Fxp):
+            # the bounds under NumPy's newer keyword names
+            z = np.clip(x, min=amin, max=amax) if route == 'numpy' else x.clip(min=amin, max=amax)
+        elif v_ == 2 and not isinstance(amin, Fxp) and not isinstance(amax, Fxp):
+            # the bounds as one-element lists (broadcast like arrays)
+            z = np.clip(x, None if amin is None else [amin], None if amax is None else [amax]) if route == 'numpy' else \
+                x.clip(None if amin is None else [amin], None if amax is None else [amax])
+        else:
+            z = np.clip(x, amin, amax) if route == 'numpy' else x.clip(amin, amax)
     except Exception as e:
         return [exc_token(e)]
     if not isinstance(z, Fxp):
